@@ -3,6 +3,7 @@ package rules
 import (
 	"go/token"
 	"go/types"
+	"strconv"
 	"sync"
 
 	"golang.org/x/tools/go/ssa"
@@ -191,7 +192,6 @@ func checkWaitGroupFanout(c *core.Ctx, r *core.Report, rule string, g *ssa.Go, c
 		r.Fail(rule+".R2", cons+":done", pos, "goroutine body never calls WaitGroup.Done: the parent cannot wait for it (or the idiom is not a WaitGroup fan-out)")
 		return body, false
 	}
-	wg := wgOf(done.Common().Args[0])
 	if _, isDefer := done.(*ssa.Defer); isDefer {
 		r.Check(done.Block() == body.Blocks[0], rule+".R2", cons+":done", c.Pos(done.Pos()), "Done is deferred in the entry block of the goroutine body, so it runs on every exit including panics")
 		// deferred calls run last-in-first-out: anything deferred before Done runs after the parent may have been released
@@ -220,10 +220,10 @@ func checkWaitGroupFanout(c *core.Ctx, r *core.Report, rule string, g *ssa.Go, c
 	var adds []ssa.CallInstruction
 	var waits []ssa.CallInstruction
 	for _, ci := range core.Calls(parent) {
-		if core.IsExtCall(ci.Common(), "(*sync.WaitGroup).Add") && wgOf(ci.Common().Args[0]) == wg {
+		if core.IsExtCall(ci.Common(), "(*sync.WaitGroup).Add") && sameWG(ci.Common().Args[0], done.Common().Args[0]) {
 			adds = append(adds, ci)
 		}
-		if core.IsExtCall(ci.Common(), "(*sync.WaitGroup).Wait") && wgOf(ci.Common().Args[0]) == wg {
+		if core.IsExtCall(ci.Common(), "(*sync.WaitGroup).Wait") && sameWG(ci.Common().Args[0], done.Common().Args[0]) {
 			waits = append(waits, ci)
 		}
 	}
@@ -259,10 +259,10 @@ func checkWaitGroupFanout(c *core.Ctx, r *core.Report, rule string, g *ssa.Go, c
 			at, parent = site, site.Parent()
 			adds, waits = nil, nil
 			for _, ci := range core.Calls(parent) {
-				if core.IsExtCall(ci.Common(), "(*sync.WaitGroup).Add") && wgOf(ci.Common().Args[0]) == wg {
+				if core.IsExtCall(ci.Common(), "(*sync.WaitGroup).Add") && sameWG(ci.Common().Args[0], done.Common().Args[0]) {
 					adds = append(adds, ci)
 				}
-				if core.IsExtCall(ci.Common(), "(*sync.WaitGroup).Wait") && wgOf(ci.Common().Args[0]) == wg {
+				if core.IsExtCall(ci.Common(), "(*sync.WaitGroup).Wait") && sameWG(ci.Common().Args[0], done.Common().Args[0]) {
 					waits = append(waits, ci)
 				}
 			}
@@ -270,6 +270,10 @@ func checkWaitGroupFanout(c *core.Ctx, r *core.Report, rule string, g *ssa.Go, c
 	}
 	loop := core.InnermostLoop(parent, at.Block())
 	if loop == nil {
+		if closeTableDecides(c, g) {
+			r.Hold(rule+".R1", cons+":add", pos, "the go statement is reached through a visitor, not a loop of its own function: how often it runs, what the counter is raised by and that Wait follows are decided by the close table on 0..3 closers")
+			return body, true
+		}
 		r.Undecided(rule+".R1", cons+":add", pos, "go statement is not inside a loop")
 		return body, false
 	}
@@ -407,7 +411,11 @@ func c14(c *core.Ctx, r *core.Report) {
 	// exactly once per App.Close call means exactly once for the owner only if nobody else calls App.Close: the
 	// library never closes on the owner's behalf (unless Close itself is made idempotent by a closed flag)
 	closeFn := core.TopLevel(fn)
-	for i := 0; i < 4 && closeFn.Object() != nil && !closeFn.Object().Exported() && len(c.FuncValueUses(closeFn)) == 0; i++ {
+	onRunContext := func(f *ssa.Function) bool {
+		// a method of an object made per call (nobody but the routine that makes it can call it)
+		return f.Signature.Recv() != nil && transientType(c, core.NamedOf(f.Signature.Recv().Type()), 0)
+	}
+	for i := 0; i < 4 && closeFn.Object() != nil && (!closeFn.Object().Exported() || onRunContext(closeFn)) && len(c.FuncValueUses(closeFn)) == 0; i++ {
 		// the loop body / the goroutine body moved into a helper: the closing routine is its one caller
 		var up *ssa.Function
 		same := true
@@ -488,6 +496,27 @@ func c14(c *core.Ctx, r *core.Report) {
 	}
 	g := gos[0]
 	checkWaitGroupFanout(c, r, "C14", g, cons)
+	// the same questions, asked of the closing routine as a whole by interpretation (when the model can follow it)
+	tableMode := false
+	if cfn := closingRoutineOf(c, g); cfn != nil {
+		if res := closeTable(c, cfn); res.und == "" {
+			r.Count("close_table_runs", res.runs)
+			res.rs.report(c, r, cfn, func(row string) string {
+				switch row {
+				case "each-once":
+					return "C14.R2"
+				case "counted":
+					return "C14.R1"
+				case "awaited":
+					return "C14.R3"
+				case "no-panic":
+					return "C14.R4"
+				}
+				return ""
+			}, "close-table@"+core.FnName(cfn), closeRows)
+			tableMode = closeTableDecides(c, g)
+		}
+	}
 	// R2: Close on the parameter, exactly once
 	recv := core.Norm(call.Common().Value)
 	_, isParam := recv.(*ssa.Parameter)
@@ -556,6 +585,18 @@ func c14(c *core.Ctx, r *core.Report) {
 		okArg := elemArg(idx) != nil && rl.ElemOf(elemArg(idx))
 		r.Check(okArg, "C14.R2", cons+":element-passed", c.Pos(g.Pos()), "the goroutine receives the current element of the ranged closer slice")
 		c14Field(c, r, rl.Slice)
+	} else if rl == nil && tableMode {
+		// the elements reach the goroutine through a visitor: which closers are closed is the close table's row
+		cfn := closingRoutineOf(c, g)
+		res := closeTable(c, cfn)
+		r.Hold("C14.R1", cons+":range", c.Pos(g.Pos()), "the closers reach the goroutine through a visitor; every wired closer is closed exactly once (close table)")
+		if cc := c.Named("definition", "CloserComponent"); cc != nil && res.field != "" {
+			wireByTypeField(c, r, "C14.R5", cc)
+			if owner := ownerOf(cfn); owner != nil {
+				stores, _ := c.FieldAccesses(owner, res.field)
+				r.Check(len(stores) == 0, "C14.R5", "closers-field-untouched:"+owner.Obj().Name()+"."+res.field, c.FnPos(cfn), "the closer collection is read straight from the wired field and no in-scope code overwrites that field")
+			}
+		}
 	} else if rl == nil {
 		r.Fail("C14.R1", cons+":range", c.Pos(g.Pos()), "closer fan-out is not a forward range over the closer slice")
 	}
@@ -619,6 +660,20 @@ func c14Field(c *core.Ctx, r *core.Report, slice ssa.Value) {
 	if ok && u.Op == token.MUL {
 		if fa, isFA := u.X.(*ssa.FieldAddr); isFA {
 			if fr, ok2 := core.FieldOfAddr(fa); ok2 {
+				if transientType(c, fr.Owner, 0) {
+					// the list travels in an object made per call: where it comes from is what the close table saw
+					// the closing routine read
+					appT := c.Named("app", "App")
+					for _, g := range goStatementsIn(c, fa.Parent()) {
+						if cfn := closingRoutineOf(c, g); cfn != nil && appT != nil {
+							if res := closeTable(c, cfn); res.und == "" && res.field != "" && closeTableDecides(c, g) {
+								stores, _ := c.FieldAccesses(appT, res.field)
+								r.Check(len(stores) == 0, "C14.R5", "closers-field-untouched:"+appT.Obj().Name()+"."+res.field, c.Pos(u.Pos()), "the closer collection is read straight from the wired field and no in-scope code overwrites that field")
+								return
+							}
+						}
+					}
+				}
 				stores, _ := c.FieldAccesses(fr.Owner, fr.Name)
 				okLoad = len(stores) == 0
 				r.Check(okLoad, "C14.R5", "closers-field-untouched:"+fr.Owner.Obj().Name()+"."+fr.Name, c.Pos(u.Pos()), "the closer collection is read straight from the wired field and no in-scope code overwrites that field")
@@ -1263,4 +1318,76 @@ func checkTokenJoin(c *core.Ctx, r *core.Report, rule string, g *ssa.Go, cons st
 		}
 	}
 	return body, okCount && okWait
+}
+
+// wgCanon: the WaitGroup a value denotes, as a root value and a path of field selections from it - looking through
+// loads, and through the receiver / parameters of a goroutine body or single-site launcher to what the go statement
+// passes.  `&r.scan.wg` in the parent and `&r.scan.wg` in a method started with `go r.visit(...)` are the same.
+func wgCanon(v ssa.Value) (ssa.Value, string) {
+	path := ""
+	v = wgOf(v)
+	for i := 0; i < 12; i++ {
+		switch x := v.(type) {
+		case *ssa.FieldAddr:
+			path = "." + strconv.Itoa(x.Field) + path
+			v = core.Norm(x.X)
+			continue
+		case *ssa.Field:
+			path = "." + strconv.Itoa(x.Field) + path
+			v = core.Norm(x.X)
+			continue
+		case *ssa.UnOp:
+			if x.Op == token.MUL {
+				if fa, ok := x.X.(*ssa.FieldAddr); ok {
+					v = fa
+					continue
+				}
+			}
+		case *ssa.Parameter:
+			body := x.Parent()
+			idx := -1
+			for k, p := range body.Params {
+				if p == x {
+					idx = k
+				}
+			}
+			var passed ssa.Value
+			if gs := goStatementsOf(body); len(gs) == 1 && idx >= 0 && idx < len(gs[0].Call.Args) {
+				passed = gs[0].Call.Args[idx]
+			} else if sites := staticCallsOf(body); len(gs) == 0 && len(sites) == 1 && idx >= 0 && idx < len(sites[0].Call.Args) {
+				passed = sites[0].Call.Args[idx]
+			}
+			if passed != nil && passed != v {
+				v = core.Norm(passed)
+				continue
+			}
+		}
+		break
+	}
+	return v, path
+}
+
+// sameWG: the two values denote the same WaitGroup.
+func sameWG(a, b ssa.Value) bool {
+	if wgOf(a) == wgOf(b) {
+		return true
+	}
+	ra, pa := wgCanon(a)
+	rb, pb := wgCanon(b)
+	return pa == pb && pa != "" && (ra == rb || core.Equiv(ra, rb))
+}
+
+// goStatementsIn: the go statements of fn and its literals.
+func goStatementsIn(c *core.Ctx, fn *ssa.Function) []*ssa.Go {
+	var out []*ssa.Go
+	for _, f := range core.WithAnon(core.TopLevel(fn)) {
+		for _, b := range f.Blocks {
+			for _, in := range b.Instrs {
+				if g, ok := in.(*ssa.Go); ok {
+					out = append(out, g)
+				}
+			}
+		}
+	}
+	return out
 }
